@@ -177,6 +177,8 @@ def _ctparse(
         labels = _get_labels(txt)
         # clear raw text of labels so what follows works properly
         txt = re.sub('#[a-zA-Z0-9_-]+','', txt).strip()
+        # a label cut out of the middle leaves two blanks behind: collapse them again
+        txt = re.sub(' +', ' ', txt)
 
         logger.debug("=" * 80)
         logger.debug("-> matching regular expressions")
